@@ -56,9 +56,11 @@ fn gen_case(rng: &mut Rng) -> XCase {
     for _ in 0..rng.range(0, 3) {
         let mut a = vec![];
         for _ in 0..rng.range(0, 3) {
-            match rng.below(4) {
+            match rng.below(5) {
                 0 => a.extend_from_slice(b"pre"),
                 1 => a.push(b'-'),
+                // the first byte of R alone: a failed partial match right before (or after) an occurrence
+                4 if r[0].is_ascii() => a.push(r[0]),
                 _ => a.extend_from_slice(r),
             }
         }
